@@ -5,6 +5,7 @@ import Driver.Price
 import Driver.Rewards
 import Driver.Pconc
 import Driver.Abi
+import Driver.Tally
 open Driver
 
 def dispatch (fam : String) : Option (List String → String → Option Res) :=
@@ -18,6 +19,8 @@ def dispatch (fam : String) : Option (List String → String → Option Res) :=
   | "pcache" => some runPcache
   | "pconc" => some runPconc
   | "calc" => some runCalc
+  | "tally" => some runTally
+  | "ratio" => some runRatio
   | "valset" => some runValset
   | "checkpoint" => some runCheckpoint
   | "attest" => some runAttest
